@@ -8,6 +8,7 @@ pub mod c11;
 
 /// Entry point of the engine binary.
 pub fn engine_main() -> ! {
+    common::set_fuzz_registry(fuzz_registry());
     let env = common::Env::from_args();
     let code = match env.property.as_str() {
         "C02" => c02::main(&env),
